@@ -421,3 +421,277 @@ Proof.
 Qed.
 
 End Bits.
+
+(* ---------------- writable headers: the writer emits the reference encoding ---------------- *)
+
+Lemma wf_opt_strip h : wf_opt h -> wf_opt (strip h) /\ wf_all h [] 0.
+Proof.
+  intros W. destruct (wf_crc h W) as [C1 C2]. destruct (wf_pack h W) as [K1 K2].
+  assert (WS : wf_opt (strip h)).
+  { destruct W. constructor; cbn [strip PESOptionalHeader_ScramblingControl PESOptionalHeader_PTSDTSIndicator
+      PESOptionalHeader_PTS PESOptionalHeader_DTS PESOptionalHeader_HasESCR PESOptionalHeader_ESCR PESOptionalHeader_HasESRate
+      PESOptionalHeader_ESRate PESOptionalHeader_HasDSMTrickMode PESOptionalHeader_DSMTrickMode
+      PESOptionalHeader_HasAdditionalCopyInfo PESOptionalHeader_AdditionalCopyInfo PESOptionalHeader_HasCRC PESOptionalHeader_CRC
+      PESOptionalHeader_HasOptionalFields PESOptionalHeader_HasPackHeaderField PESOptionalHeader_PackField
+      PESOptionalHeader_HasExtension PESOptionalHeader_HasPrivateData PESOptionalHeader_HasProgramPacketSequenceCounter
+      PESOptionalHeader_HasPSTDBuffer PESOptionalHeader_HasExtension2 PESOptionalHeader_PrivateData
+      PESOptionalHeader_PacketSequenceCounter PESOptionalHeader_MPEG1OrMPEG2ID PESOptionalHeader_OriginalStuffingLength
+      PESOptionalHeader_PSTDBufferScale PESOptionalHeader_PSTDBufferSize PESOptionalHeader_Extension2Data]; auto. }
+  split; [exact WS|]. unfold wf_all. rewrite C1, C2, K1, K2.
+  split; [exact WS|]. split; [reflexivity|]. split; [auto|]. split; [split; [reflexivity|constructor]|].
+  pose proof (ref_len_range h W). unfold ref_header_data_length_all. rewrite C1, K1, andb_false_r. cbn [Z.of_nat]. lia.
+Qed.
+
+Lemma opt_items_gen h : wf_opt h -> items_bits (opt_items h) = items_bits (gen_items h [] 0).
+Proof.
+  intros W. destruct (wf_crc h W) as [C1 C2]. destruct (wf_pack h W) as [K1 K2].
+  unfold opt_items, gen_items. rewrite !items_bits_app. f_equal. f_equal; [|f_equal].
+  - unfold fixed1, gfixed1. rewrite C1. reflexivity.
+  - unfold fixed2, hdl, ref_header_data_length_all. rewrite (calc_len_eq h W), C1, K1, andb_false_r. cbn [Z.of_nat].
+    rewrite !Z.add_0_r. reflexivity.
+  - do 5 f_equal. unfold crc_items. rewrite C1. cbn [repeat items_bits flat_map app]. rewrite app_nil_r.
+    rewrite (ext_items_eq h). unfold gext_items, gext_flags, ext_flags, pack_items. rewrite K1.
+    destruct (PESOptionalHeader_HasExtension h); reflexivity.
+Qed.
+
+Theorem write_ref h : wf_opt h ->
+  exists its n, enc_pes_optional_header h = Ok (its, n) /\
+    bytes_of_items its = ref_opt_bytes h [] 0 /\ n = Z.of_nat (length (ref_opt_bytes h [] 0)).
+Proof.
+  intros W. destruct (wf_opt_strip h W) as [WS WA].
+  exists (opt_items h), (opt_len h). split; [apply (enc_opt_ok h W)|].
+  pose proof (opt_aligned h W) as A. destruct (aligned_bytes _ _ A) as [Hl _].
+  assert (E : bytes_of_items (opt_items h) = ref_opt_bytes h [] 0).
+  { rewrite (chunks_concat _ (proj2 A)). unfold ref_opt_bytes.
+    rewrite (opt_items_gen h W), (gen_bits h [] 0 WS). reflexivity. }
+  split; [exact E|]. rewrite <- E, Hl.
+  destruct (part_lens_nonneg' h W) as (N1 & N2 & N3 & N4 & N5 & N6). unfold opt_len in *. lia.
+Qed.
+
+(* ---------------- parsing the reference encoding of any well-formed PES packet ---------------- *)
+
+Lemma slice_mid a rest m : 0 <= m -> slice (a ++ rest) (Z.of_nat (length a)) (Z.of_nat (length a) + m) = firstn (Z.to_nat m) rest.
+Proof.
+  intros Hm. unfold slice. rewrite Nat2Z.id, skipn_app, skipn_all, Nat.sub_diag. cbn [skipn app].
+  f_equal. lia.
+Qed.
+
+Lemma head_bytes_ref sid L : bytes_of_bits (fbits [(24%nat, 1); (8%nat, sid); (16%nat, L)]) = bytes_of_items (head_items sid L).
+Proof. rewrite chunks_concat by items_ok. reflexivity. Qed.
+
+Section ParseRef.
+Context (sid L : Z) (h : PESOptionalHeader) (pack : list Z) (st : nat) (rest : list Z).
+Context (Hs : 0 <= sid < 256) (HL : 0 <= L < 65536) (Hopt : lib_has_optional_header sid = true) (WA : wf_all h pack st).
+
+Let bs := ref_pes_bytes sid L h pack st ++ rest.
+Let H := {| PESHeader_OptionalHeader := Some (observed_all h st); PESHeader_PacketLength := L; PESHeader_StreamID := sid |}.
+Let hdr := 3 + ref_header_data_length_all h + Z.of_nat st.
+
+Lemma ref_header_parse :
+  Z.of_nat (length (ref_pes_bytes sid L h pack st)) = 6 + hdr /\
+  parse_pes_header (mk_iter bs 3) =
+  Ok ((H, 6 + hdr, if L >? 0 then 6 + L else Z.of_nat (length bs)), mk_iter bs (6 + gen_len h pack)).
+Proof.
+  pose proof (proj1 WA) as W.
+  destruct (head_bytes sid L Hs HL) as (B & EB & HB2 & HBf).
+  assert (Eo : ref_opt_bytes h pack st = bytes_of_items (gen_items h pack st)).
+  { unfold ref_opt_bytes. rewrite <- (gen_bits h pack st W). symmetry. apply chunks_concat.
+    destruct gen_lens_nonneg with (h := h) (pack := pack) as (N1 & N2 & N3 & N4 & N5 & N6 & N7); [exact W|].
+    unfold gen_items. repeat apply items_bytes_ok_app.
+    - apply (fixed0_aligned h). - apply (gfixed1_aligned h). - apply (wu8_aligned (hdl h st)).
+    - apply (ts_aligned (strip h) W). - apply (escr_aligned (strip h)). - apply (es_rate_aligned (strip h)).
+    - apply (dsm_aligned (strip h)). - apply (aci_aligned (strip h)). - apply (crc_aligned h).
+    - apply (gext_aligned h pack st W WA). - apply (repeat_aligned st). }
+  assert (Ag : aligned (gen_items h pack st) (Z.to_nat (gen_len h pack) + st)).
+  { destruct gen_lens_nonneg with (h := h) (pack := pack) as (N1 & N2 & N3 & N4 & N5 & N6 & N7); [exact W|].
+    unfold gen_items, gen_len.
+    replace (Z.to_nat (3 + ts_len h + escr_len h + snd (enc_es_rate h) + dsm_len h + snd (enc_aci h) + crc_len h + gext_len h pack) + st)%nat
+      with (1 + (1 + (1 + (Z.to_nat (ts_len h) + (Z.to_nat (escr_len h) + (Z.to_nat (snd (enc_es_rate h)) +
+            (Z.to_nat (dsm_len h) + (Z.to_nat (snd (enc_aci h)) + (Z.to_nat (crc_len h) + (Z.to_nat (gext_len h pack) + st))))))))))%nat by lia.
+    repeat apply aligned_app.
+    - apply (fixed0_aligned h). - apply (gfixed1_aligned h). - apply (wu8_aligned (hdl h st)).
+    - apply (ts_aligned (strip h) W). - apply (escr_aligned (strip h)). - apply (es_rate_aligned (strip h)).
+    - apply (dsm_aligned (strip h)). - apply (aci_aligned (strip h)). - apply (crc_aligned h).
+    - apply (gext_aligned h pack st W WA). - apply (repeat_aligned st). }
+  destruct (aligned_bytes _ _ Ag) as [Hlg _].
+  destruct (aligned_bytes _ _ (head_aligned sid L)) as [Hlh _].
+  pose proof (gen_len_eq h pack st WA) as Hge.
+  destruct (len_all_bounds h pack st WA) as (R0 & R1 & R2).
+  subst bs. unfold ref_pes_bytes. rewrite head_bytes_ref, Eo.
+  set (hb := bytes_of_items (head_items sid L)) in *. set (ob := bytes_of_items (gen_items h pack st)) in *.
+  split. { rewrite app_length, Hlh, Hlg. subst hdr. lia. }
+  set (bs := (hb ++ ob) ++ rest).
+  assert (Lo : located bs 6 ob).
+  { exists hb, rest. unfold bs. rewrite <- app_assoc. split; [reflexivity|]. rewrite Hlh. reflexivity. }
+  change ([0; 0; 1; sid]) with ([0; 0; 1] ++ [sid]) in EB.
+  assert (Ls : located bs 3 [sid] /\ located bs 4 B).
+  { assert (Lh' : located bs 0 (([0; 0; 1] ++ [sid]) ++ B)).
+    { unfold bs. rewrite <- EB, <- app_assoc. apply located_self_prefix. }
+    apply located_app in Lh'. destruct Lh' as [Lx Ly]. apply located_app in Lx. destruct Lx as [_ Lx]. split; [exact Lx|exact Ly]. }
+  destruct Ls as [Ls Lb].
+  unfold parse_pes_header.
+  erewrite ibind_ok by (apply (next_byte_located bs 3 sid Ls)).
+  unfold next_bytes_nocopy. erewrite ibind_ok by (apply (next_bytes_located bs 4 B 2); [rewrite HB2; reflexivity | exact Lb]).
+  rewrite HBf. erewrite ibind_ok by reflexivity. erewrite ibind_ok by reflexivity.
+  cbn [ioff ibs]. rewrite has_opt_lib, Hopt. change (3 + 1 + 2) with 6.
+  erewrite ibind_ok by (apply (parse_gen_located h pack st W WA bs 6 Lo)). cbv beta iota.
+  unfold iret, ilen; cbn [ibs]. subst H hdr. unfold hdl.
+  replace (6 + 3 + (ref_header_data_length_all h + Z.of_nat st)) with (6 + (3 + ref_header_data_length_all h + Z.of_nat st)) by lia.
+  reflexivity.
+Qed.
+
+(* PES_packet_length 0: everything behind the header; L > 0: exactly L - hdr bytes, an error when L ends inside
+   the header or beyond the available bytes *)
+Theorem parse_ref :
+  (L = 0 -> parse_pes_data_bytes bs = Ok {| PESData_Data := rest; PESData_Header := Some H |}) /\
+  (L > 0 -> hdr <= L -> L - hdr <= Z.of_nat (length rest) ->
+     parse_pes_data_bytes bs = Ok {| PESData_Data := firstn (Z.to_nat (L - hdr)) rest; PESData_Header := Some H |}) /\
+  (L > 0 -> L < hdr \/ Z.of_nat (length rest) < L - hdr -> parse_pes_data_bytes bs = Err E_generic).
+Proof.
+  destruct ref_header_parse as [Hlen Hp].
+  destruct (len_all_bounds h pack st WA) as (R0 & R1 & R2).
+  rewrite (parse_data_after_header _ _ _ _ _ Hp eq_refl).
+  assert (Hbl : Z.of_nat (length bs) = 6 + hdr + Z.of_nat (length rest)).
+  { subst bs. rewrite app_length. lia. }
+  repeat split; intros.
+  - subst L. cbn [Z.gtb Z.compare]. rewrite Hbl.
+    destruct (6 + hdr + Z.of_nat (length rest) <? 6 + hdr) eqn:E1; [lia|]. rewrite Z.ltb_irrefl.
+    destruct (6 + hdr <? 0) eqn:E2; [subst hdr; lia|]. f_equal. f_equal.
+    subst bs. rewrite <- Hlen, slice_mid by lia. apply firstn_all2. lia.
+  - destruct (L >? 0) eqn:E; [|lia].
+    destruct (6 + L <? 6 + hdr) eqn:E1; [lia|]. destruct (Z.of_nat (length bs) <? 6 + L) eqn:E2; [lia|].
+    destruct (6 + hdr <? 0) eqn:E3; [subst hdr; lia|]. f_equal. f_equal.
+    subst bs. rewrite <- Hlen. replace (6 + L) with (Z.of_nat (length (ref_pes_bytes sid L h pack st)) + (L - hdr)) by lia.
+    apply slice_mid. lia.
+  - destruct (L >? 0) eqn:E; [|lia].
+    destruct (6 + L <? 6 + hdr) eqn:E1; [reflexivity|]. destruct (Z.of_nat (length bs) <? 6 + L) eqn:E2; [reflexivity|lia].
+Qed.
+
+End ParseRef.
+
+(* stream ids without optional header (padding_stream, private_stream_2): the data start right behind the six bytes *)
+Theorem parse_ref_noopt sid L rest : 0 <= sid < 256 -> 0 <= L < 65536 -> lib_has_optional_header sid = false ->
+  let bs := ref_pes_bytes_noopt sid L ++ rest in
+  let H := {| PESHeader_OptionalHeader := None; PESHeader_PacketLength := L; PESHeader_StreamID := sid |} in
+  (L = 0 -> parse_pes_data_bytes bs = Ok {| PESData_Data := rest; PESData_Header := Some H |}) /\
+  (L > 0 -> L <= Z.of_nat (length rest) ->
+     parse_pes_data_bytes bs = Ok {| PESData_Data := firstn (Z.to_nat L) rest; PESData_Header := Some H |}) /\
+  (L > 0 -> Z.of_nat (length rest) < L -> parse_pes_data_bytes bs = Err E_generic).
+Proof.
+  intros Hs HL Hopt bs H.
+  destruct (head_bytes sid L Hs HL) as (B & EB & HB2 & HBf).
+  destruct (aligned_bytes _ _ (head_aligned sid L)) as [Hlh _].
+  subst bs. unfold ref_pes_bytes_noopt. rewrite head_bytes_ref.
+  set (hb := bytes_of_items (head_items sid L)) in *. set (bs := hb ++ rest).
+  change ([0; 0; 1; sid]) with ([0; 0; 1] ++ [sid]) in EB.
+  assert (Ls : located bs 3 [sid] /\ located bs 4 B).
+  { assert (Lh' : located bs 0 (([0; 0; 1] ++ [sid]) ++ B)).
+    { unfold bs. rewrite <- EB. apply located_self_prefix. }
+    apply located_app in Lh'. destruct Lh' as [Lx Ly]. apply located_app in Lx. destruct Lx as [_ Lx]. split; [exact Lx|exact Ly]. }
+  destruct Ls as [Ls Lb].
+  assert (Hp : parse_pes_header (mk_iter bs 3) =
+            Ok ((H, 6, if L >? 0 then 6 + L else Z.of_nat (length bs)), mk_iter bs 6)).
+  { unfold parse_pes_header.
+    erewrite ibind_ok by (apply (next_byte_located bs 3 sid Ls)).
+    unfold next_bytes_nocopy. erewrite ibind_ok by (apply (next_bytes_located bs 4 B 2); [rewrite HB2; reflexivity | exact Lb]).
+    rewrite HBf. erewrite ibind_ok by reflexivity. erewrite ibind_ok by reflexivity.
+    cbn [ioff ibs]. rewrite has_opt_lib, Hopt. change (3 + 1 + 2) with 6.
+    erewrite ibind_ok by reflexivity. reflexivity. }
+  rewrite (parse_data_after_header _ _ _ _ _ Hp eq_refl). clear HBf Hp.
+  assert (Hbl : Z.of_nat (length bs) = 6 + Z.of_nat (length rest)).
+  { unfold bs. rewrite app_length, Hlh. lia. }
+  assert (H6 : 6 = Z.of_nat (length hb)) by (rewrite Hlh; reflexivity).
+  repeat split; intros.
+  - subst L. cbn [Z.gtb Z.compare]. rewrite Hbl.
+    destruct (6 + Z.of_nat (length rest) <? 6) eqn:E1; [lia|]. rewrite Z.ltb_irrefl. cbn [Z.ltb Z.compare].
+    f_equal. f_equal. rewrite <- Hbl, H6. unfold bs. apply slice_tail.
+  - destruct (L >? 0) eqn:E; [|lia].
+    destruct (6 + L <? 6) eqn:E1; [lia|]. destruct (Z.of_nat (length bs) <? 6 + L) eqn:E2; [lia|].
+    cbn [Z.ltb Z.compare]. f_equal. f_equal. unfold bs. rewrite H6. apply slice_mid. lia.
+  - destruct (L >? 0) eqn:E; [|lia].
+    destruct (6 + L <? 6) eqn:E1; [reflexivity|]. destruct (Z.of_nat (length bs) <? 6 + L) eqn:E2; [reflexivity|lia].
+Qed.
+
+(* the full domain is inhabited: CRC, a pack header of two bytes, three stuffing bytes *)
+Definition example_all : PESOptionalHeader :=
+  {| PESOptionalHeader_AdditionalCopyInfo := 0;
+     PESOptionalHeader_CRC := 4660;
+     PESOptionalHeader_DataAlignmentIndicator := false;
+     PESOptionalHeader_DSMTrickMode := None;
+     PESOptionalHeader_DTS := None;
+     PESOptionalHeader_ESCR := None;
+     PESOptionalHeader_ESRate := 0;
+     PESOptionalHeader_Extension2Data := [];
+     PESOptionalHeader_Extension2Length := 0;
+     PESOptionalHeader_HasAdditionalCopyInfo := false;
+     PESOptionalHeader_HasCRC := true;
+     PESOptionalHeader_HasDSMTrickMode := false;
+     PESOptionalHeader_HasESCR := false;
+     PESOptionalHeader_HasESRate := false;
+     PESOptionalHeader_HasExtension := true;
+     PESOptionalHeader_HasExtension2 := false;
+     PESOptionalHeader_HasOptionalFields := false;
+     PESOptionalHeader_HasPackHeaderField := true;
+     PESOptionalHeader_HasPrivateData := false;
+     PESOptionalHeader_HasProgramPacketSequenceCounter := true;
+     PESOptionalHeader_HasPSTDBuffer := false;
+     PESOptionalHeader_HeaderLength := 0;
+     PESOptionalHeader_IsCopyrighted := true;
+     PESOptionalHeader_IsOriginal := false;
+     PESOptionalHeader_MarkerBits := 0;
+     PESOptionalHeader_MPEG1OrMPEG2ID := 1;
+     PESOptionalHeader_OriginalStuffingLength := 1;
+     PESOptionalHeader_PacketSequenceCounter := 5;
+     PESOptionalHeader_PackField := 2;
+     PESOptionalHeader_Priority := false;
+     PESOptionalHeader_PrivateData := [];
+     PESOptionalHeader_PSTDBufferScale := 0;
+     PESOptionalHeader_PSTDBufferSize := 0;
+     PESOptionalHeader_PTS := Some (cr 1 0);
+     PESOptionalHeader_PTSDTSIndicator := 2;
+     PESOptionalHeader_ScramblingControl := 0 |}.
+
+Example example_all_wf : wf_all example_all [170; 187] 3.
+Proof.
+  split; [|cbn -[Z.pow]; repeat split; try lia; try discriminate; bytes_ok_tac].
+  constructor; cbn -[Z.pow]; try lia; try tauto; try reflexivity; try discriminate.
+  eexists. split; [|reflexivity]. change (2 ^ 33) with 8589934592. lia.
+Qed.
+Example example_all_bytes :
+  ref_pes_bytes 192 0 example_all [170; 187] 3 =
+  [0; 0; 1; 192; 0; 0; 130; 131; 16; 33; 0; 1; 0; 3; 18; 52; 110; 2; 170; 187; 133; 193; 255; 255; 255].
+Proof. vm_compute. reflexivity. Qed.
+Example example_all_parse :
+  parse_pes_data_bytes (ref_pes_bytes 192 0 example_all [170; 187] 3 ++ [17; 34]) =
+  Ok {| PESData_Data := [17; 34];
+        PESData_Header := Some {| PESHeader_OptionalHeader := Some (observed_all example_all 3);
+                                  PESHeader_PacketLength := 0; PESHeader_StreamID := 192 |} |}.
+Proof. vm_compute. reflexivity. Qed.
+
+(* writePESHeader as a whole emits the reference encoding of the packet header *)
+Theorem write_ref_header h n : wf_header h -> 0 <= n ->
+  let sid := PESHeader_StreamID h in
+  let L := ref_packet_length sid (ref_opt_len h) n in
+  exists its k, enc_pes_header h n = Ok (its, k) /\ k = Z.of_nat (length (bytes_of_items its)) /\
+    bytes_of_items its =
+      match PESHeader_OptionalHeader h with
+      | Some oh => if lib_has_optional_header sid then ref_pes_bytes sid L oh [] 0 else ref_pes_bytes_noopt sid L
+      | None => ref_pes_bytes_noopt sid L
+      end.
+Proof.
+  intros Wh Hn sid L. pose proof (packet_length_ref h n Wh) as HL. destruct Wh as [Hs Ho].
+  fold sid in Hs, Ho, HL. fold L in HL.
+  unfold enc_pes_header. fold sid. rewrite HL. fold (head_items sid L). rewrite has_opt_lib.
+  destruct (aligned_bytes _ _ (head_aligned sid L)) as [Hlh _].
+  destruct (lib_has_optional_header sid) eqn:El.
+  - destruct (Ho eq_refl) as (oh & Eo & W). rewrite Eo. rewrite (enc_opt_ok oh W). cbn [res_bind].
+    pose proof (opt_aligned oh W) as Ao. destruct (aligned_bytes _ _ Ao) as [Hlo _].
+    destruct (write_ref oh W) as (its' & n' & E1 & E2 & _). rewrite (enc_opt_ok oh W) in E1. injection E1 as <- <-.
+    eexists _, _. split; [reflexivity|].
+    rewrite (bytes_of_items_app _ _ 6 (head_aligned sid L)) by apply Ao. split.
+    + rewrite app_length, Hlh, Hlo. unfold C_pesHeaderLength.
+      destruct (part_lens_nonneg' oh W) as (N1 & N2 & N3 & N4 & N5 & N6). unfold opt_len in *. lia.
+    + unfold ref_pes_bytes. rewrite head_bytes_ref, E2. reflexivity.
+  - eexists _, _. split; [reflexivity|]. split; [rewrite Hlh; reflexivity|].
+    unfold ref_pes_bytes_noopt. rewrite head_bytes_ref. destruct (PESHeader_OptionalHeader h); reflexivity.
+Qed.
